@@ -454,8 +454,9 @@ pub fn engine_main<E: Engine>(job: &Job) {
                 let sc = E::generate(&job.profile, &job.tier, seed);
                 writeln!(
                     out,
-                    "{}",
-                    serde_json::json!({"seed": seed, "scenario": sc})
+                    "{{\"seed\":{},\"scenario\":{}}}",
+                    seed,
+                    serde_json::to_string(&sc).unwrap()
                 )
                 .unwrap();
             }
@@ -497,13 +498,18 @@ fn batch<E: Engine>(job: &Job) {
                 // harness error: keep the scenario so it can be inspected
                 let path = format!("{}/harness-error-{}-{}.json", job.replay_dir, E::NAME, seed);
                 let _ = std::fs::create_dir_all(&job.replay_dir);
+                // (built as a string: `serde_json::Value` cannot hold 128-bit integers)
                 let _ = std::fs::write(
                     &path,
-                    serde_json::to_vec(&serde_json::json!({
-                        "engine": E::NAME, "profile": job.profile, "tier": job.tier,
-                        "seed": seed, "scenario": sc, "harness_error": msg,
-                    }))
-                    .unwrap(),
+                    format!(
+                        "{{\"engine\":{},\"profile\":{},\"tier\":{},\"seed\":{},\"harness_error\":{},\"scenario\":{}}}",
+                        serde_json::to_string(E::NAME).unwrap(),
+                        serde_json::to_string(&job.profile).unwrap(),
+                        serde_json::to_string(&job.tier).unwrap(),
+                        seed,
+                        serde_json::to_string(&msg).unwrap(),
+                        serde_json::to_string(&sc).unwrap_or_else(|_| "null".to_string()),
+                    ),
                 );
                 writeln!(
                     out,
